@@ -486,6 +486,26 @@ func (x *Exec) loadCell(st *State, root string, idx []Poly) Poly {
 	return PAtom(cellAtom(root, st.ver[root], idx))
 }
 
+// peekCell is loadCell without side effects: the value of a cell the state holds no entry for, when no store of
+// the state can alias it.
+func (x *Exec) peekCell(st *State, root string, idx []Poly) (Poly, bool) {
+	m := st.cells[root]
+	if cv, ok := m[idxKey(idx)]; ok {
+		return cv.val, true
+	}
+	for _, cv := range m {
+		if !provablyDistinct(cv.idx, idx) {
+			return Poly{}, false
+		}
+	}
+	for r, mm := range st.cells {
+		if r != root && len(mm) > 0 && (strings.HasPrefix(r, root+".") || strings.HasPrefix(root, r+".")) {
+			return Poly{}, false
+		}
+	}
+	return PAtom(cellAtom(root, st.ver[root], idx)), true
+}
+
 func (x *Exec) storeCell(st *State, root string, idx []Poly, val Poly) {
 	if strings.HasSuffix(root, ".Num") {
 		base := strings.TrimSuffix(root, ".Num")
@@ -1152,6 +1172,17 @@ func (x *Exec) merge(base *State, sts []*State, scope ast.Node) []*State {
 				ca := cellAtom(r, -x.uniq, idx)
 				if x.Phis == nil {
 					x.Phis = map[string][]PhiArm{}
+				}
+				// an arm that never touched the cell still holds the value memory had before the branch
+				if !okA {
+					if v, ok := x.peekCell(m, r, idx); ok {
+						a.val, okA = v, true
+					}
+				}
+				if !okB {
+					if v, ok := x.peekCell(o, r, idx); ok {
+						b.val, okB = v, true
+					}
 				}
 				x.Phis[ca.Key] = []PhiArm{{Val: a.val, Guards: mGuards, Has: okA}, {Val: b.val, Guards: o.guards, Has: okB}}
 				allPhis[ca.Key] = x.Phis[ca.Key]
